@@ -46,7 +46,14 @@ def main():
         meta = json.load(open(os.path.join(sdir, "meta.json")))
         d = tempfile.mkdtemp(prefix="qvseed_" + sid + "_", dir="/tmp")
         try:
-            subprocess.run(["rsync", "-a", "--exclude", ".git", "--exclude", "build", "/repo/", d + "/"], check=True)
+            base = "/repo"
+            if meta.get("base_commit"):
+                # the change only manifests on top of a defect that was repaired in /repo afterwards: replay it on that commit
+                subprocess.run(f"git -C /repo archive {meta['base_commit']} | tar -x -C {d}", shell=True, check=True)
+                base = tempfile.mkdtemp(prefix="qvseedbase_" + sid + "_", dir="/tmp")
+                subprocess.run(f"git -C /repo archive {meta['base_commit']} | tar -x -C {base}", shell=True, check=True)
+            else:
+                subprocess.run(["rsync", "-a", "--exclude", ".git", "--exclude", "build", "/repo/", d + "/"], check=True)
             patch = os.path.join(sdir, "patch.diff")
             r = subprocess.run(["git", "apply", "--whitespace=nowarn", patch], cwd=d, stdout=subprocess.PIPE,
                                stderr=subprocess.STDOUT, text=True)
@@ -59,7 +66,7 @@ def main():
                 continue
             demo_res = None
             if demo:
-                demo_res = (run_demo(sdir, meta, d), run_demo(sdir, meta, "/repo"))
+                demo_res = (run_demo(sdir, meta, d), run_demo(sdir, meta, base))
             props = meta.get("checks_expected", [meta["property"]])
             for prop in props:
                 env = dict(os.environ, QV_REPO=d, QV_OUT=os.path.join(d, ".qvout"), QV_CACHE=os.path.join(d, ".qvcache"))
@@ -69,6 +76,10 @@ def main():
                 viol = [ln for ln in r.stdout.splitlines() if ln.startswith("VIOLATION")]
                 sigs = [ln.strip()[:220] for ln in r.stdout.splitlines() if ln.strip().startswith("signature:")]
                 status = "CAUGHT" if (r.returncode == 1 and viol) else f"MISSED(exit={r.returncode})"
+                need = meta.get("caught_requires_signature_regex")
+                import re
+                if status == "CAUGHT" and need and not any(re.search(need, ln) for ln in r.stdout.splitlines() if "signature:" in ln):
+                    status = "MISSED(only the base commit's own defect was reported)"
                 rows.append((sid, prop, tier, status, f"{time.time() - t0:.0f}s", "demo(with,without)=" + str(demo_res),
                              sigs[:2]))
                 print(rows[-1], flush=True)
@@ -76,6 +87,8 @@ def main():
                     print(r.stdout[-1200:])
         finally:
             shutil.rmtree(d, ignore_errors=True)
+            if meta.get("base_commit"):
+                shutil.rmtree(base, ignore_errors=True)
     with open(os.path.join(HERE, "last_seeded_results.json"), "w") as f:
         json.dump(rows, f, indent=1)
     missed = [r for r in rows if "CAUGHT" not in str(r[3:4])]
